@@ -34,7 +34,8 @@ TRUSTED_BASE = ['vf/refs/bip38.py (self-checked: all BIP38 test vectors incl. un
 ASSUMPTIONS = ['a refusal is any raised exception',
                'the address that salts a key is the P2PKH address of the key on the given network (the BIP defines it for Bitcoin)',
                'bip38_decrypt() on a plain-mode key returns (key, addresshash, ...) and documents that the caller verifies the hash: '
-               'with a different passphrase it is judged by whether the returned hash exposes the mismatch; Key()/HDKey() must raise',
+               'with a different passphrase it is judged by whether the returned hash exposes the mismatch; Key()/HDKey() must raise; '
+               'for EC-multiplied keys bip38_decrypt derives and reports wif/address itself and therefore must raise',
                'the network is always passed to Key()/HDKey() on import (an encrypted key does not carry it)',
                'bip38_intermediate_password refuses sequence=0 and lot outside 100000..999999 (refusal, not judged); such keys are '
                'made by the reference and only their decryption is judged']
@@ -244,7 +245,7 @@ def _ec_on_bitcoin_heals(api):
     return _ec_net_confirmed[api]
 
 
-def _chk_wrong(api, enc, network, wrong, case, col, probe):
+def _chk_wrong(api, enc, network, wrong, case, col, probe, mode='plain'):
     col.probe(probe)
     case = dict(case, wrong_pass=wrong)
     try:
@@ -253,7 +254,7 @@ def _chk_wrong(api, enc, network, wrong, case, col, probe):
         return
     if r[0] == 'func':
         ok, priv, comp = _func_verifies(r[1], network)
-        if not ok:
+        if not ok and mode == 'plain':
             return          # the returned address hash exposes the mismatch (documented division of labour)
         r = (priv, comp)
     col.violation(None, '%s accepted a different passphrase and returned a key' % api, case, [r[0].hex(), r[1]], 'refusal')
@@ -313,7 +314,7 @@ def chk_ec(case, col, rnd):
             pass        # a refusal here was already judged above
     # -- a different passphrase must be refused (meaningful where the right one is accepted: bitcoin-version networks)
     if case.get('wrong', True) and chain.NETWORKS[network]['p2pkh'] == chain.NETWORKS['bitcoin']['p2pkh']:
-        _chk_wrong(api, g['encrypted'], network, _wrong(pw, rnd), case, col, 'ec_wrong_passphrase')
+        _chk_wrong(api, g['encrypted'], network, _wrong(pw, rnd), case, col, 'ec_wrong_passphrase', mode='ec')
 
 
 # ------------------------------------------------------------------------------------------------ freshness
